@@ -74,6 +74,7 @@ class Gen:
     def __init__(self, rng, tier):
         self.rng = rng
         self.tier = tier
+        self.bigp = 0.0     # chance that a text argument is multi-kilobyte (set per history)
 
     # ---- texts ----
     def small_text(self, maxlen=8, nl=True):
@@ -97,7 +98,7 @@ class Gen:
         r = self.rng
         if allow_null and r.random() < 0.06:
             return 'N'
-        if big or r.random() < 0.02:
+        if big or r.random() < self.bigp:
             n = r.choice([4094, 4095, 4096, 4097, 8191, 8192, 3 * 4096 + 5, 300])
             pat = r.choice(['61', '6162', '20', '41627a', '6120'])
             return '%s*%d' % (pat, n)
@@ -114,7 +115,7 @@ class Gen:
         for _ in range(r.choice([0, 1, 1, 2, 2, 3, 4, 6])):
             k = r.random()
             if k < 0.55:
-                if big or r.random() < 0.2:
+                if big or r.random() < self.bigp:
                     evs.append('d%s*%d' % (r.choice(['61', '6263']), r.choice([1, 4095, 4096, 4097, 8192, 8193, 3 * 4096 + 5])))
                 else:
                     t = [c for c in self.small_text()]
@@ -354,6 +355,9 @@ class Gen:
         return 'glen'
 
     def history(self, nops, big=False):
+        # the list-based model needs ~30 ms for a history over multi-kilobyte texts and ~0.3 ms
+        # otherwise: long texts are concentrated in a few histories
+        self.bigp = 0.12 if big else 0.0
         sim = Sim()
         c = self.ctor(big=big)
         sim.t = self.ctor_text(c)
@@ -504,12 +508,59 @@ class C01(vlib.PropertyCheck):
         nrand = 700 if tier == 'quick' else 110000
         for i in range(nrand):
             nops = rng.choice([1, 2, 3, 5, 8, 13, 20, 30, 40])
-            hist.append(g.history(nops, big=(rng.random() < 0.04)))
+            hist.append(g.history(nops, big=(rng.random() < (0.04 if tier == 'quick' else 0.02))))
         cases = []
         for h in hist:
             cases.append('str ' + h)
             cases.append('ustr ' + h)
         return cases
 
+
+
+
+# The extracted model is a single-threaded list program (about 0.3 ms per short history, 30 ms per
+# multi-kilobyte one).  For large case files run it on slices in parallel; results are identical
+# to one sequential run (each case is independent).  Only this check's process is affected.
+_seq_run_model = vlib.run_model
+
+def _par_run_model(exe, cases_path, ncases, timeout=600):
+    import os, subprocess
+    jobs = min(max(1, (os.cpu_count() or 2) - 2), 12)
+    if ncases < 20000 or jobs < 2 or not os.path.basename(exe).startswith('c01_'):
+        return _seq_run_model(exe, cases_path, ncases, timeout=timeout)
+    with open(cases_path) as f:
+        lines = f.readlines()
+    per = (len(lines) + jobs - 1) // jobs
+    procs = []
+    for j in range(jobs):
+        part = lines[j * per:(j + 1) * per]
+        if not part:
+            break
+        pp = '%s.part%d' % (cases_path, j)
+        with open(pp, 'w') as f:
+            f.writelines(part)
+        procs.append((j * per, pp, subprocess.Popen([exe, pp], stdout=subprocess.PIPE, stderr=subprocess.PIPE,
+                                                     env=dict(os.environ, OCAMLRUNPARAM='l=512M'))))
+    results = [None] * ncases
+    rc_all, err_all = 0, ''
+    for off, pp, pr in procs:
+        try:
+            o, e = pr.communicate(timeout=timeout)
+        except subprocess.TimeoutExpired:
+            pr.kill()
+            o, e = pr.communicate()
+            rc_all, err_all = -9, err_all + '[timeout]'
+        rc_all = rc_all or pr.returncode
+        err_all += e.decode(errors='replace')[-500:]
+        for line in o.decode(errors='replace').split('\n'):
+            if line.startswith('#'):
+                sp = line.find(' ')
+                k = off + int(line[1:sp])
+                if k < ncases:
+                    results[k] = line[sp + 1:]
+        os.unlink(pp)
+    return results, (rc_all, err_all)
+
+vlib.run_model = _par_run_model
 
 CHECK = C01()
